@@ -1,4 +1,5 @@
 import KvarnModel.Sanitize
+import KvarnModel.Lemmas.Utf8
 /-! C01 — requests cannot read outside the public directory or reach internal routes. Property theorems. -/
 namespace Sanitize
 open Rust
@@ -293,34 +294,39 @@ theorem pdecode_append_suffix (p s : Bytes) (hs : PCT ∉ s)
 
 /-- sane configuration: the defaults contain neither `/` nor `%` -/
 def Cfg.Sane (cfg : Cfg) : Prop :=
-  SLASH ∉ cfg.folderDefault ∧ PCT ∉ cfg.folderDefault ∧ SLASH ∉ cfg.extensionDefault ∧ PCT ∉ cfg.extensionDefault
+  SLASH ∉ cfg.folderDefault ∧ PCT ∉ cfg.folderDefault ∧ SLASH ∉ cfg.extensionDefault ∧ PCT ∉ cfg.extensionDefault ∧
+  -- they are Rust `String`s
+  utf8Valid cfg.folderDefault = true ∧ utf8Valid cfg.extensionDefault = true
 
 /-- the suffix the Prime extension appends -/
 theorem uriRedirect_suffix (cfg : Cfg) (hc : cfg.Sane) (p : Bytes) :
-    ∃ suf, uriRedirect cfg p = p ++ suf ∧ SLASH ∉ suf ∧ pdecode (p ++ suf) = pdecode p ++ suf := by
+    ∃ suf, uriRedirect cfg p = p ++ suf ∧ SLASH ∉ suf ∧ pdecode (p ++ suf) = pdecode p ++ suf ∧ utf8Valid suf = true := by
   unfold uriRedirect
   split
-  · rename_i h; exact ⟨_, rfl, hc.2.2.1, pdecode_append_suffix p _ hc.2.2.2 (.inl h)⟩
+  · rename_i h; exact ⟨_, rfl, hc.2.2.1, pdecode_append_suffix p _ hc.2.2.2.1 (.inl h), hc.2.2.2.2.2⟩
   · split
-    · rename_i h; exact ⟨_, rfl, hc.1, pdecode_append_suffix p _ hc.2.1 (.inr h)⟩
-    · exact ⟨[], by simp, by simp, by simp⟩
+    · rename_i h; exact ⟨_, rfl, hc.1, pdecode_append_suffix p _ hc.2.1 (.inr h), hc.2.2.2.2.1⟩
+    · exact ⟨[], by simp, by simp, by simp, rfl⟩
 
-/-- **no dot segments** (`_partial`: for targets whose percent-decoding is valid UTF-8 — the others are
-checked on their *raw* spelling by the sanitizer and no file path is formed for them unless the decoding of the
-rewritten path is UTF-8; the missing lemma is "an ASCII suffix cannot repair an invalid UTF-8 prefix", which the
-correspondence run covers with `%ff`, `%c0%ae` targets): for every target the sanitizer accepts, the relative
-file path computed after the Prime rewrite has no component ending in `.` (so no `.`/`..`) except possibly
-the last one. -/
-theorem no_dot_segments_partial (cfg : Cfg) (hc : cfg.Sane) (p rel : Bytes) (hok : pathOk p = true)
-    (hv : utf8Valid (pdecode p) = true) (hrel : fsRel (uriRedirect cfg p) = some rel) :
+/-- **no dot segments**: for every target the sanitizer accepts — every byte string, valid UTF-8 after decoding or
+not — the relative file path computed after the Prime rewrite has no component ending in `.` (so no `.`/`..`)
+except possibly the last one. (A target whose decoding is not UTF-8 is checked on its raw spelling by the
+sanitizer; no file path is formed for it, because the suffix the rewrite appends is a `String` and cannot repair
+an invalid prefix: `Rust.utf8Valid_left_of_append`.) -/
+theorem no_dot_segments (cfg : Cfg) (hc : cfg.Sane) (p rel : Bytes) (hok : pathOk p = true)
+    (hrel : fsRel (uriRedirect cfg p) = some rel) :
     ∀ s ∈ (split rel).dropLast, s.getLast? ≠ some DOT := by
   intro s hs hdot
   have hcon := dot_segment_gives_dotslash rel s hs hdot
-  obtain ⟨suf, hsuf, hs1, hdec⟩ := uriRedirect_suffix cfg hc p
+  obtain ⟨suf, hsuf, hs1, hdec, hsv⟩ := uriRedirect_suffix cfg hc p
   unfold fsRel at hrel
   simp only at hrel
   split at hrel
-  · simp only [Option.some.injEq] at hrel
+  · rename_i hvr
+    simp only [Option.some.injEq] at hrel
+    have hv : utf8Valid (pdecode p) = true := by
+      rw [hsuf, hdec] at hvr
+      exact Rust.utf8Valid_left_of_append _ suf hsv hvr
     have hno : containsSub DOTSLASH (percentDecode p) = false := by
       unfold pathOk at hok
       simp only [Bool.and_eq_true, Bool.not_eq_eq_eq_not, Bool.not_true] at hok
@@ -333,6 +339,11 @@ theorem no_dot_segments_partial (cfg : Cfg) (hc : cfg.Sane) (p rel : Bytes) (hok
       containsSub_drop DOTSLASH _ 1 (by rw [hrel]; exact hcon) (by simp [DOTSLASH])
     rw [this] at h1; cases h1
   · cases hrel
+
+/-- the earlier, weaker form (kept so that nothing that cited it breaks) -/
+theorem no_dot_segments_partial (cfg : Cfg) (hc : cfg.Sane) (p rel : Bytes) (hok : pathOk p = true)
+    (_hv : utf8Valid (pdecode p) = true) (hrel : fsRel (uriRedirect cfg p) = some rel) :
+    ∀ s ∈ (split rel).dropLast, s.getLast? ≠ some DOT := no_dot_segments cfg hc p rel hok hrel
 
 /-! ### the file system: without `..` in a non-final position, resolution never leaves the start directory -/
 
@@ -392,11 +403,11 @@ theorem stays_inside : ∀ (segs : List Bytes) (stack : List Node) (cur : Node) 
               exact ⟨s :: names, by simp [walk, hn, hw]⟩
             · cases h
 
-/-- **reads stay inside the public directory** (`_partial`, same proviso as above): whatever a GET/HEAD for an
-accepted target reads is the content of a file reachable from the public directory by descending through
-names only — for every byte string, every tree, every sane configuration. -/
-theorem read_stays_inside_partial (cfg : Cfg) (hc : cfg.Sane) (above : List Node) (pub : Node) (p c : Bytes)
-    (habove : ∀ n ∈ above, isDir n) (hv : utf8Valid (pdecode p) = true)
+/-- **reads stay inside the public directory**: whatever a GET/HEAD for an accepted target reads is the content of
+a file reachable from the public directory by descending through names only — for every byte string, every tree,
+every sane configuration. -/
+theorem read_stays_inside (cfg : Cfg) (hc : cfg.Sane) (above : List Node) (pub : Node) (p c : Bytes)
+    (habove : ∀ n ∈ above, isDir n)
     (h : readPublic above pub cfg p = some c) : ∃ names, walk pub names = some (.file c) := by
   unfold readPublic at h
   split at h
@@ -408,10 +419,15 @@ theorem read_stays_inside_partial (cfg : Cfg) (hc : cfg.Sane) (above : List Node
       split at h
       · rename_i c' hres
         simp only [Option.some.injEq] at h; subst h
-        have hnd := no_dot_segments_partial cfg hc p rel (by simpa using hok) hv hrel
+        have hnd := no_dot_segments cfg hc p rel (by simpa using hok) hrel
         exact stays_inside (split rel) above pub c' habove
           (by intro s hs e; exact hnd s hs (by rw [e]; rfl)) hres
       · cases h
+
+theorem read_stays_inside_partial (cfg : Cfg) (hc : cfg.Sane) (above : List Node) (pub : Node) (p c : Bytes)
+    (habove : ∀ n ∈ above, isDir n) (_hv : utf8Valid (pdecode p) = true)
+    (h : readPublic above pub cfg p = some c) : ∃ names, walk pub names = some (.file c) :=
+  read_stays_inside cfg hc above pub p c habove h
 
 /-- rejected targets read nothing (and are answered 400 — see the pipeline model) -/
 theorem rejected_reads_nothing (cfg : Cfg) (above : List Node) (pub : Node) (p : Bytes) (h : pathOk p = false) :
@@ -419,6 +435,12 @@ theorem rejected_reads_nothing (cfg : Cfg) (above : List Node) (pub : Node) (p :
   simp [readPublic, h]
 
 /-! concrete witnesses (tests) -/
+-- the default configuration (`index.html`, `html`) is sane: the theorems' hypothesis is satisfiable
+example : Cfg.Sane ⟨[105, 110, 100, 101, 120, 46, 104, 116, 109, 108], [104, 116, 109, 108]⟩ := by
+  refine ⟨?_, ?_, ?_, ?_, ?_, ?_⟩ <;> decide
+-- an invalid prefix stays invalid whatever `String` is appended: "/%ff/" + "index.html" forms no file path
+example : fsRel (uriRedirect ⟨[105, 110, 100, 101, 120, 46, 104, 116, 109, 108], [104, 116, 109, 108]⟩ [47, 37, 102, 102, 47]) = none := by
+  decide +kernel
 example : pathOk [47, 37, 50, 101, 37, 50, 69, 47, 120] = false := by decide +kernel   -- "/%2e%2E/x"
 example : pathOk [47, 97, 47, 46, 46] = true := by decide +kernel                       -- "/a/.." (a directory)
 example : pdecode [47, 37, 50, 102, 37, 50, 53, 37, 122] = [47, 47, 37, 37, 122] := by decide +kernel
